@@ -301,3 +301,57 @@ def rule_I3(ctx, prog, label, rule='I3'):
             rr.instances += 1
             rr.ob(True, dict(function=name, verdict='no reject path reaches a variable return'))
     return rr
+
+
+def rule_I4(ctx, prog, label, rule='I4'):
+    """Writers: a row buffer allocated once outside the per-row loop and handed to the sink in every iteration is rewritten
+    completely in every iteration - no store into it is control-dependent on matrix data (an `if (!tmp) continue;` leaves the
+    previous row's bytes in place)."""
+    rr = RuleResult(rule, 'PNG writer: the reused row buffer is filled unconditionally in every iteration (no store into it depends on the data being written)')
+    f = prog.func('mzd_to_png')
+    fs = FuncSym(f)
+    sinks = [c for c in f.body.find('CallExpr') if callee_name(c) == 'png_write_row']
+    if not sinks:
+        raise AnalysisBroken('I4: png_write_row vanished from mzd_to_png')
+    for sk in sinks:
+        buf = strip(sk.kids[2], casts=True)
+        if buf.kind != 'DeclRefExpr':
+            raise AnalysisBroken('I4: the row handed to png_write_row is not a local buffer')
+        loop = fs.enclosing(sk, ('ForStmt', 'WhileStmt'))
+        if loop is None:
+            raise AnalysisBroken('I4: png_write_row is not called from a per-row loop')
+        rr.instances += 1
+        inside_alloc = any(n.kind in ('BinaryOperator',) and n.op == '=' and strip(n.kids[0]).kind == 'DeclRefExpr' and strip(n.kids[0]).refid == buf.refid for n in loop.walk()) or \
+            any(n.kind == 'VarDecl' and n.id == buf.refid for n in loop.walk())
+        if inside_alloc:
+            rr.ob(True, dict(buffer=buf.ref, verdict='allocated per iteration'))
+            continue
+        # data variables: locals assigned from a load of the matrix row inside the loop
+        data_vars = set()
+        for n in loop.walk():
+            if (n.kind == 'BinaryOperator' and n.op == '=') or (n.kind == 'VarDecl' and n.kids and n.init):
+                rhs = n.kids[1] if n.kind == 'BinaryOperator' else n.kids[-1]
+                tgt = strip(n.kids[0]).refid if n.kind == 'BinaryOperator' and strip(n.kids[0]).kind == 'DeclRefExpr' else (n.id if n.kind == 'VarDecl' else None)
+                if tgt is not None and any(x.kind == 'ArraySubscriptExpr' for x in rhs.walk()) and (fs.decl.get(tgt) is not None) and 'word' in (fs.decl[tgt].type or '') and '*' not in (fs.decl[tgt].type or ''):
+                    data_vars.add(tgt)
+        bad = None
+        for n in loop.walk():
+            cond = None
+            if n.kind == 'IfStmt':
+                cond = n.kids[0]
+            elif n.kind == 'ConditionalOperator':
+                cond = n.kids[0]
+            if cond is not None and any(x.kind == 'DeclRefExpr' and x.refid in data_vars for x in cond.walk()):
+                # does this condition control a store into the buffer (directly, or by skipping the rest through continue/break)?
+                body = n.kids[1:]
+                ctrl = any(y.kind in ('ContinueStmt', 'BreakStmt') for b in body for y in b.walk()) or \
+                    any(y.kind == 'BinaryOperator' and y.op == '=' and strip(y.kids[0], casts=True).kind == 'ArraySubscriptExpr'
+                        and strip(strip(y.kids[0], casts=True).kids[0], casts=True).kind == 'DeclRefExpr'
+                        and strip(strip(y.kids[0], casts=True).kids[0], casts=True).refid == buf.refid for b in body for y in b.walk())
+                if ctrl:
+                    bad = n
+        rr.ob(bad is None, dict(buffer=buf.ref, verdict='reused buffer, every store unconditional'),
+              Finding(rule, '%s|mzd_to_png|%s' % (rule, buf.ref), bad.loc if bad is not None else f.loc, f.name,
+                      'the row buffer `%s` is allocated once and reused, but `%s` makes its refill depend on the data: bytes of the previous row stay in the buffer and are written to the file'
+                      % (buf.ref, pp(bad.kids[0])[:40] if bad is not None else ''), {}, label))
+    return rr
